@@ -13,7 +13,8 @@ R13b  in ``apply_fixes`` (the *request* is the local tested by the ``if`` that g
       call of ``validate_segment_with_reparse``):
       (i)   in the loop over an anchor's fixes every path to the next fix sets the request,
             except through the exemption ``replace`` + one edit + same ``class_types``
-            (accepted as designed; checked to have exactly these three conjuncts);
+            (accepted as designed; an exempt branch must carry all three conjuncts --
+            further conditions only narrow it);
             the request is never reset;
       (ii)  every recursive result's validity component, when false, sets the request, on
             every path to the next child;
@@ -23,6 +24,14 @@ R13b  in ``apply_fixes`` (the *request* is the local tested by the ``if`` that g
             (validation left to the parent).  A constant ``True`` or
             a value left over from somewhere else (e.g. the last child's result) is reported.
 
+Spellings read as the same facts (QUIET sweep): the result tuple of ``apply_fixes`` unpacked in one
+statement, kept whole and unpacked later, or indexed (``res[0]`` / ``res[3]``); the validity (or its
+negation) through further locals; the exemption test positive or negated, held in a boolean local,
+as an if/elif chain of the negated conjuncts, as ``or`` of negations, with ``f.edit`` read into a
+local and the operands in either order (an edge is exempt when its own test *and the tests of the
+same iteration that dominate it* contain the three conjuncts); the request accumulated with
+``req = req or not <validity>`` / ``req |= ..`` (monotone: never a reset).
+
 Not decided: that validation of the edited token list implies that the re-lexed text parses.
 """
 
@@ -31,6 +40,7 @@ from __future__ import annotations
 import ast
 
 from ..cfg import Branch, atoms, cfg_of, origins
+from ..idioms import atoms_at, branch_atoms, component_origins, conditions_at, edge_atoms, expanded
 from ..flowutil import attr_chain, branch_of, callee, describe_origin, for_origin, is_shadowed, must_pass, param_origin
 from ..index import AnalysisError, FuncNode, call_name, last_attr, norm, short, walk_local
 
@@ -60,6 +70,32 @@ def _tuple_target(stmt, idx):
     return None
 
 
+def _is_component(cfg, e, at, call, idx) -> bool:
+    """``e`` (a local, or ``res[idx]``) can only be component ``idx`` of the result of ``call``."""
+    if not isinstance(e, (ast.Name, ast.Subscript)):
+        return False
+    os_ = component_origins(cfg, e, at)
+    return bool(os_) and all(o.kind == "expr" and o.expr is call and tuple(o.path) == (idx,) for o in os_)
+
+
+def _const_idx(sub):
+    sl = sub.slice if isinstance(sub, ast.Subscript) else None
+    return sl.value if isinstance(sl, ast.Constant) and isinstance(sl.value, int) and not isinstance(sl.value, bool) else None
+
+
+def _bindings(stmt):
+    """(target, value) pairs of an assignment, element-wise when both sides are displays."""
+    if not isinstance(stmt, ast.Assign):
+        return []
+    out = []
+    for t in stmt.targets:
+        if isinstance(t, (ast.Tuple, ast.List)) and isinstance(stmt.value, (ast.Tuple, ast.List)) and len(t.elts) == len(stmt.value.elts) and not any(isinstance(x, ast.Starred) for x in list(t.elts) + list(stmt.value.elts)):
+            out += list(zip(t.elts, stmt.value.elts))
+        else:
+            out.append((t, stmt.value))
+    return out
+
+
 def _r13a(chk, repo, af) -> None:
     sites = []
     for m in repo.iter_modules():
@@ -80,35 +116,70 @@ def _r13a(chk, repo, af) -> None:
         if not (isinstance(st, ast.Assign) and st.value is call):
             chk.fail("R13a", call, "result of apply_fixes is not unpacked into (tree, before, after, valid): the validity flag cannot gate the adoption", detail="apply_fixes result unpacked")
             continue
-        tree_names = set()
+        # locals that hold the candidate tree / the whole result *directly* (the unpacking, in one
+        # statement or spread over ``res = apply_fixes(..)`` + ``a, b, c, d = res`` / ``a = res[0]``)
+        tree_defs, whole_defs = {}, {}
+        bad = False
         for t in st.targets:
             if isinstance(t, (ast.Tuple, ast.List)) and len(t.elts) > TREE_IDX and isinstance(t.elts[TREE_IDX], ast.Name) and not any(isinstance(e, ast.Starred) for e in t.elts):
-                tree_names.add(t.elts[TREE_IDX].id)
+                tree_defs.setdefault(t.elts[TREE_IDX].id, set()).add(id(st))
+            elif isinstance(t, ast.Name):
+                whole_defs.setdefault(t.id, set()).add(id(st))
             else:
-                tree_names.add(None)
-        if None in tree_names:
+                bad = True
+        if bad:
             chk.fail("R13a", call, "tree component of apply_fixes' result is not bound to a local", detail="apply_fixes tree component bound")
             continue
-        # every use of a tree name that the unpack may reach
         rd = cfg.reaching()
+
+        def _holds(name_node, table, at):
+            ds = rd.defs_at(at, name_node.id)
+            return name_node.id in table and bool(ds) and all(id(d.stmt) in table[name_node.id] for d in ds)
+
+        binders = {id(st)}
+        if whole_defs:
+            for s2 in walk_local(fn):
+                for tgt, val in _bindings(s2):
+                    if isinstance(val, ast.Name) and _holds(val, whole_defs, s2) and isinstance(tgt, (ast.Tuple, ast.List)) and len(tgt.elts) > TREE_IDX and isinstance(tgt.elts[TREE_IDX], ast.Name) and not any(isinstance(e, ast.Starred) for e in tgt.elts):
+                        tree_defs.setdefault(tgt.elts[TREE_IDX].id, set()).add(id(s2))
+                        binders.add(id(s2))
+                    elif isinstance(val, ast.Subscript) and isinstance(val.value, ast.Name) and _holds(val.value, whole_defs, s2) and _const_idx(val) == TREE_IDX and isinstance(tgt, ast.Name):
+                        tree_defs.setdefault(tgt.id, set()).add(id(s2))
+                        binders.add(id(s2))
+        # every use of a tree holder that the unpack may reach
         n_escape = 0
         for node in walk_local(fn):
-            if not (isinstance(node, ast.Name) and isinstance(node.ctx, ast.Load) and node.id in tree_names):
+            if not (isinstance(node, ast.Name) and isinstance(node.ctx, ast.Load)):
                 continue
             us = cfg.stmt_of(node)
-            ds = rd.defs_at(us, node.id)
-            if not any(d.stmt is st for d in ds):
-                continue
             par = getattr(node, "_parent", None)
-            if isinstance(par, ast.Attribute) and par.value is node:
-                continue  # reads a property of the candidate tree (raw, source_fixes, ...)
+            if node.id in tree_defs:
+                ds = rd.defs_at(us, node.id)
+                if not any(id(d.stmt) in tree_defs[node.id] for d in ds):
+                    continue
+                if isinstance(par, ast.Attribute) and par.value is node:
+                    continue  # reads a property of the candidate tree (raw, source_fixes, ...)
+            elif node.id in whole_defs:
+                ds = rd.defs_at(us, node.id)
+                if not any(id(d.stmt) in whole_defs[node.id] for d in ds):
+                    continue
+                if isinstance(par, ast.Subscript) and par.value is node and _const_idx(par) is not None:
+                    if _const_idx(par) != TREE_IDX:
+                        continue  # another component (validity, bubbled-up segments)
+                    gp = getattr(par, "_parent", None)
+                    if isinstance(gp, ast.Attribute) and gp.value is par:
+                        continue  # property of the candidate tree
+                    if id(us) in binders:
+                        continue  # the statement that binds the tree component to its local
+                elif id(us) in binders and isinstance(us, ast.Assign) and any(v is node for _, v in _bindings(us)):
+                    continue  # ``a, b, c, d = res``
+            else:
+                continue
             n_escape += 1
             guarded = False
-            for e, pol in cfg.conditions(us):
-                if pol and isinstance(e, ast.Name):
-                    os_ = origins(cfg, e, cfg.stmt_of(e))
-                    if os_ and all(o.kind == "expr" and o.expr is call and o.path == (VALID_IDX,) for o in os_):
-                        guarded = True
+            for e, pol in conditions_at(cfg, us):
+                if pol and _is_component(cfg, e, cfg.stmt_of(e), call, VALID_IDX):
+                    guarded = True
             chk.require(
                 guarded, "R13a", us,
                 f"the tree produced by apply_fixes escapes through '{short(us, 70)}' without a dominating test that the call reported it valid: an edit that no longer parses is adopted",
@@ -138,24 +209,51 @@ def _r13b(chk, repo, af) -> None:
         return
     req = None
     for vc in vcalls:
-        for e, pol in cfg.conditions(cfg.stmt_of(vc)):
+        for e, pol in conditions_at(cfg, cfg.stmt_of(vc)):
             if pol and isinstance(e, ast.Name):
                 ds = cfg.reaching().defs_at(cfg.stmt_of(e), e.id)
-                if ds and all(d.kind == "assign" and isinstance(d.value, ast.Constant) and isinstance(d.value.value, bool) for d in ds):
+                if ds and all(_request_def(d, e.id) for d in ds):
                     req = e.id
     if req is None:
         chk.fail("R13b", vcalls[0], "the reparse check is not guarded by a boolean validation request", detail="reparse check under the request")
         return
-    sets = [s for s in walk_local(af) if isinstance(s, ast.Assign) and any(isinstance(t, ast.Name) and t.id == req for t in s.targets) and isinstance(s.value, ast.Constant) and s.value.value is True]
-    others = [s for s in walk_local(af) if isinstance(s, (ast.Assign, ast.AugAssign, ast.AnnAssign)) and s not in sets and any(isinstance(t, ast.Name) and t.id == req for t in (s.targets if isinstance(s, ast.Assign) else [s.target]))]
-    chk.count("R13b.request_set_sites", len(sets))
-    for s in others:
-        late = any(cfg.reaches(x, s) for x in sets)
-        chk.require(not late, "R13b", s, "the validation request is overwritten after it may have been set: the request is lost", detail=f"request never reset: {short(s, 60)}")
+
+    def _targets(s_):
+        return s_.targets if isinstance(s_, ast.Assign) else [s_.target]
+
+    writes = [s_ for s_ in walk_local(af) if isinstance(s_, (ast.Assign, ast.AugAssign, ast.AnnAssign)) and any(isinstance(t, ast.Name) and t.id == req for t in _targets(s_))]
+    sets = [s_ for s_ in writes if isinstance(s_, ast.Assign) and isinstance(s_.value, ast.Constant) and s_.value.value is True]
+    # ``req = req or E`` / ``req |= E``: can only turn the request on (never off)
+    mono = [s_ for s_ in writes if s_ not in sets and _monotone_operand(s_, req) is not None]
+    others = [s_ for s_ in writes if s_ not in sets and s_ not in mono]
+    chk.count("R13b.request_set_sites", len(sets) + len(mono))
+    for s_ in others:
+        late = any(cfg.reaches(x, s_) for x in sets + mono)
+        chk.require(not late, "R13b", s_, "the validation request is overwritten after it may have been set: the request is lost", detail=f"request never reset: {short(s_, 60)}")
 
     _edit_loop(chk, cfg, af, req, sets)
-    _recursion(chk, repo, cfg, af, req, sets)
-    _returns(chk, cfg, af, req, sets, vcalls)
+    _recursion(chk, repo, cfg, af, req, sets, mono)
+    _returns(chk, cfg, af, req, sets + mono, vcalls)
+
+
+def _monotone_operand(stmt, req):
+    """``E`` when ``stmt`` is ``req = req or E`` / ``req = E or req`` / ``req |= E``; else None."""
+    if isinstance(stmt, ast.AugAssign) and isinstance(stmt.op, ast.BitOr) and isinstance(stmt.target, ast.Name) and stmt.target.id == req:
+        return stmt.value
+    if isinstance(stmt, ast.Assign) and len(stmt.targets) == 1 and isinstance(stmt.value, ast.BoolOp) and isinstance(stmt.value.op, ast.Or) and len(stmt.value.values) == 2:
+        a, b = stmt.value.values
+        if isinstance(a, ast.Name) and a.id == req:
+            return b
+        if isinstance(b, ast.Name) and b.id == req:
+            return a
+    return None
+
+
+def _request_def(d, req) -> bool:
+    """A definition a boolean request flag may have: a constant, or a monotone accumulation."""
+    if d.kind == "assign" and isinstance(d.value, ast.Constant) and isinstance(d.value.value, bool):
+        return True
+    return d.stmt is not None and _monotone_operand(d.stmt, req) is not None
 
 
 def _edit_type_compare(e, var):
@@ -168,31 +266,40 @@ def _edit_type_compare(e, var):
     return None
 
 
-def _exemption_kinds(test, polarity, v):
-    """Classify the atoms known on one branch of an ``if`` inside the fix loop."""
+def _exemption_kinds(cfg, facts, v):
+    """Classify the facts ``(expr, truth, evaluated at)`` known on a branch edge inside the fix loop.
+
+    Locals holding one expression are read through (``edits = f.edit``), ``a != b`` false is
+    ``a == b`` true, operands may be in either order.  Facts that are none of the three conjuncts
+    only narrow the branch further and are not classified."""
     kinds = set()
-    for e, pol in atoms(test, polarity):
-        cmp_eq = isinstance(e, ast.Compare) and len(e.ops) == 1 and isinstance(e.ops[0], ast.Eq)
+    for e0, pol, at in facts:
+        e = expanded(cfg, e0, at)
+        if not (isinstance(e, ast.Compare) and len(e.ops) == 1 and isinstance(e.ops[0], (ast.Eq, ast.NotEq))):
+            continue
+        if isinstance(e.ops[0], ast.NotEq):
+            pol = not pol
         if not pol:
-            kinds.add("neg:" + short(e, 40))
-        elif _edit_type_compare(e, v) == "replace":
+            continue
+        sides = (e.left, e.comparators[0])
+        texts = tuple(norm(x) for x in sides)
+        consts = [x.value for x in sides if isinstance(x, ast.Constant)]
+        if any(attr_chain(x) == (v, "edit_type") for x in sides) and consts == ["replace"]:
             kinds.add("replace")
-        elif cmp_eq and norm(e.left) == f"len({v}.edit)" and isinstance(e.comparators[0], ast.Constant) and e.comparators[0].value == 1:
+        elif f"len({v}.edit)" in texts and consts == [1]:
             kinds.add("single")
-        elif cmp_eq and f"{v}.edit[0].class_types" in (norm(e.left), norm(e.comparators[0])) and all(isinstance(x, ast.Attribute) and x.attr == "class_types" for x in (e.left, e.comparators[0])) and norm(e.left) != norm(e.comparators[0]):
+        elif f"{v}.edit[0].class_types" in texts and all(isinstance(x, ast.Attribute) and x.attr == "class_types" for x in sides) and texts[0] != texts[1]:
             kinds.add("same-type")
-        else:
-            kinds.add("other:" + short(e, 40))
     return kinds
 
 
 def _edit_loop(chk, cfg, af, req, sets) -> None:
-    # the loop over the fixes of one anchor: a for whose variable's edit_type is tested in its body
+    # the loop over the fixes of one anchor: a for whose variable's edit_type is read in its body
     loops = []
     for n in walk_local(af):
         if isinstance(n, ast.For) and isinstance(n.target, ast.Name):
             v = n.target.id
-            if any(isinstance(x, ast.Compare) and attr_chain(x.left) == (v, "edit_type") for b in n.body for x in ast.walk(b)):
+            if any(isinstance(x, ast.Attribute) and attr_chain(x) == (v, "edit_type") for b in n.body for x in ast.walk(b)):
                 loops.append(n)
     chk.count("R13b.edit_loops", len(loops))
     chk.floor("R13b.edit_loops", 1)
@@ -200,18 +307,21 @@ def _edit_loop(chk, cfg, af, req, sets) -> None:
         v = loop.target.id
         bt = branch_of(cfg, loop, True)
         inner_sets = [s for s in sets if _inside(s, loop)]
-        # Branches on which the accepted exemption is known to hold:
+        # Branch edges on which the accepted exemption is known to hold (by the edge's own test
+        # and every test of the same iteration that dominates it):
         #   replace  and  exactly one edit  and  same class_types   (nothing less)
         exempt, near = [], []
         for n in walk_local(loop):
             if not isinstance(n, ast.If):
                 continue
             for pol in (True, False):
-                kinds = _exemption_kinds(n.test, pol, v)
                 b = branch_of(cfg, n, pol)
-                if kinds == {"replace", "single", "same-type"} and b is not None:
+                if b is None:
+                    continue
+                kinds = _exemption_kinds(cfg, edge_atoms(cfg, b, inside=loop), v)
+                if kinds >= {"replace", "single", "same-type"}:
                     exempt.append(b)
-                elif kinds & {"replace", "single", "same-type"} and any(_inside(s, n) for s in inner_sets):
+                elif kinds and any(_inside(s, n) for s in inner_sets):
                     near.append(n)
         via = list(inner_sets) + exempt
         ok = bt is not None and must_pass(cfg, bt, loop, via)
@@ -235,14 +345,17 @@ def _inside(node, anc) -> bool:
     return False
 
 
-def _recursion(chk, repo, cfg, af, req, sets) -> None:
+def _recursion(chk, repo, cfg, af, req, sets, mono=()) -> None:
     rec = [c for c in walk_local(af) if isinstance(c, ast.Call) and last_attr(c) == af.name and (callee(repo, c) or (None, None))[1] is af]
     chk.count("R13b.recursive_calls", len(rec))
     chk.floor("R13b.recursive_calls", 1)
     for call in rec:
         st = cfg.stmt_of(call)
-        tv = _tuple_target(st, VALID_IDX) if isinstance(st, ast.Assign) and st.value is call else None
-        if not isinstance(tv, ast.Name):
+        bound = False
+        if isinstance(st, ast.Assign) and st.value is call:
+            tv = _tuple_target(st, VALID_IDX)
+            bound = isinstance(tv, ast.Name) or all(isinstance(t, ast.Name) for t in st.targets)  # unpacked, or kept whole in a local
+        if not bound:
             chk.fail("R13b", call, "validity of a recursive apply_fixes result is dropped: a child's failed validation cannot reach the parent", detail="(ii) child validity bound")
             continue
         loop = None
@@ -253,21 +366,23 @@ def _recursion(chk, repo, cfg, af, req, sets) -> None:
                 break
             p = getattr(p, "_parent", None)
         goal = loop if loop is not None else cfg.exit
-        prop = []
-        for s in sets:
-            for e, pol in cfg.conditions(s):
-                if not pol and isinstance(e, ast.Name):
-                    os_ = origins(cfg, e, cfg.stmt_of(e))
-                    if os_ and all(o.kind == "expr" and o.expr is call and o.path == (VALID_IDX,) for o in os_):
-                        # nothing else may be required for the request
-                        g_if = cfg.stmt_of(e)
-                        if isinstance(g_if, ast.If) and len(atoms(g_if.test, True)) == 1:
-                            prop.append((s, g_if))
         ok = False
-        for s, g_if in prop:
-            bt = branch_of(cfg, g_if, True)
-            if must_pass(cfg, st, goal, [g_if]) and bt is not None and must_pass(cfg, bt, goal, [s]):
-                ok = True
+        # ``if not <validity>: request = True`` -- the branch edge whose only fact is "validity is false"
+        for s in sets:
+            for g in cfg.guards(s):
+                if not isinstance(g, Branch) or not isinstance(g.stmt, ast.If):
+                    continue
+                facts = branch_atoms(cfg, g)
+                if len(facts) == 1 and not facts[0][1] and _is_component(cfg, facts[0][0], cfg.stmt_of(facts[0][0]), call, VALID_IDX):
+                    # nothing else may be required for the request
+                    if must_pass(cfg, st, goal, [g.stmt]) and must_pass(cfg, g, goal, [s]):
+                        ok = True
+        # ``request = request or not <validity>`` -- reached unconditionally after the call
+        for s in mono:
+            facts = atoms_at(cfg, _monotone_operand(s, req), True, s)
+            if len(facts) == 1 and not facts[0][1] and _is_component(cfg, facts[0][0], cfg.stmt_of(facts[0][0]) or s, call, VALID_IDX):
+                if must_pass(cfg, st, goal, [s]):
+                    ok = True
         chk.require(
             ok, "R13b", call,
             "a child's failed validation does not (on every path, unconditionally) request validation of the parent segment",
@@ -289,11 +404,10 @@ def _returns(chk, cfg, af, req, sets, vcalls) -> None:
         if not after_request:
             chk.ok("R13b", f"{FIX}::apply_fixes", f"(iii) {short(r, 60)}: no request can be pending")
             continue
-        rconds = cfg.conditions(r)
         for o in (origins(cfg, val, r) if isinstance(val, ast.Name) else [_Lit(val, r)]):
             e, at = o.expr, o.stmt
             why = None
-            conds = cfg.conditions(at) if at is not None else []
+            conds = conditions_at(cfg, at) if at is not None else []
             if o.kind == "expr" and not o.path and isinstance(e, ast.Call) and last_attr(e) == VALIDATE:
                 why = "reparse check"
             elif any(isinstance(x, ast.Name) and x.id == req and not pol for x, pol in conds):
@@ -359,6 +473,175 @@ VARIANTS = [
         "                            new_tree, _, _, _valid = apply_fixes(\n",
         "                            new_tree, _before, _after, _valid = apply_fixes(\n",
         "QUIET", None, "unused tuple components named",
+    ),
+    Variant(
+        "quiet-result-kept-whole-then-indexed", LINTER,
+        "                            new_tree, _, _, _valid = apply_fixes(\n                                tree,\n                                config.get(\"dialect_obj\"),\n                                crawler.code,\n                                anchor_info,\n                                fix_even_unparsable=config.get(\"fix_even_unparsable\"),\n                                max_parse_depth=config.get(\"max_parse_depth\"),\n                                max_parse_nodes=config.get(\"max_parse_nodes\"),\n                            )\n",
+        "                            fix_result = apply_fixes(\n                                tree,\n                                config.get(\"dialect_obj\"),\n                                crawler.code,\n                                anchor_info,\n                                fix_even_unparsable=config.get(\"fix_even_unparsable\"),\n                                max_parse_depth=config.get(\"max_parse_depth\"),\n                                max_parse_nodes=config.get(\"max_parse_nodes\"),\n                            )\n                            new_tree = fix_result[0]\n                            _valid = fix_result[3]\n",
+        "QUIET", None, "result tuple kept whole and indexed",
+    ),
+    Variant(
+        "quiet-result-kept-whole-then-unpacked", LINTER,
+        "                            new_tree, _, _, _valid = apply_fixes(\n                                tree,\n                                config.get(\"dialect_obj\"),\n                                crawler.code,\n                                anchor_info,\n                                fix_even_unparsable=config.get(\"fix_even_unparsable\"),\n                                max_parse_depth=config.get(\"max_parse_depth\"),\n                                max_parse_nodes=config.get(\"max_parse_nodes\"),\n                            )\n",
+        "                            fix_result = apply_fixes(\n                                tree,\n                                config.get(\"dialect_obj\"),\n                                crawler.code,\n                                anchor_info,\n                                fix_even_unparsable=config.get(\"fix_even_unparsable\"),\n                                max_parse_depth=config.get(\"max_parse_depth\"),\n                                max_parse_nodes=config.get(\"max_parse_nodes\"),\n                            )\n                            new_tree, _, _, _valid = fix_result\n",
+        "QUIET", None, "result tuple kept in a local, unpacked by the next statement",
+    ),
+    Variant(
+        "quiet-valid-arm-positive-nesting", LINTER,
+        "                            elif not _valid:\n                                # The fixes result in an invalid file. Don't apply\n                                # the fix and skip onward. Show a warning.\n                                linter_logger.warning(\n                                    f\"Fixes for {crawler.code} not applied, as it \"\n                                    \"would result in an unparsable file. Please \"\n                                    \"report this as a bug with a minimal query \"\n                                    \"which demonstrates this warning.\"\n                                )\n                            elif loop_check_tuple not in previous_versions:\n                                # We've not seen this version of the file so\n                                # far. Continue.\n                                tree = new_tree\n                                previous_versions.add(loop_check_tuple)\n                                changed = True\n                                continue\n                            else:\n                                # Applying these fixes took us back to a state\n                                # which we've seen before. We're in a loop, so\n                                # we want to stop.\n                                cls._warn_unfixable(crawler.code)\n",
+        "                            elif _valid:\n                                if loop_check_tuple not in previous_versions:\n                                    # We've not seen this version of the file so\n                                    # far. Continue.\n                                    tree = new_tree\n                                    previous_versions.add(loop_check_tuple)\n                                    changed = True\n                                    continue\n                                # Applying these fixes took us back to a state\n                                # which we've seen before. We're in a loop, so\n                                # we want to stop.\n                                cls._warn_unfixable(crawler.code)\n                            else:\n                                # The fixes result in an invalid file. Don't apply\n                                # the fix and skip onward. Show a warning.\n                                linter_logger.warning(\n                                    f\"Fixes for {crawler.code} not applied, as it \"\n                                    \"would result in an unparsable file. Please \"\n                                    \"report this as a bug with a minimal query \"\n                                    \"which demonstrates this warning.\"\n                                )\n",
+        "QUIET", None, "adoption nested under the positive validity test",
+    ),
+    Variant(
+        "quiet-validity-through-second-local", LINTER,
+        '                            # Was anything actually applied? If not, then the fixes we\n                            # had cannot be safely applied and we should stop trying.\n                            if loop_check_tuple == (tree.raw, tuple(tree.source_fixes)):\n                                linter_logger.debug(\n                                    f"Fixes for {crawler.code} could not be safely be "\n                                    "applied. Likely due to initially unparsable file."\n                                )\n                            elif not _valid:\n',
+        '                            still_parses = _valid\n                            # Was anything actually applied? If not, then the fixes we\n                            # had cannot be safely applied and we should stop trying.\n                            if loop_check_tuple == (tree.raw, tuple(tree.source_fixes)):\n                                linter_logger.debug(\n                                    f"Fixes for {crawler.code} could not be safely be "\n                                    "applied. Likely due to initially unparsable file."\n                                )\n                            elif not still_parses:\n',
+        "QUIET", None, "validity copied to a second local before the test",
+    ),
+    Variant(
+        "quiet-invalid-flag-local", LINTER,
+        '                            # Was anything actually applied? If not, then the fixes we\n                            # had cannot be safely applied and we should stop trying.\n                            if loop_check_tuple == (tree.raw, tuple(tree.source_fixes)):\n                                linter_logger.debug(\n                                    f"Fixes for {crawler.code} could not be safely be "\n                                    "applied. Likely due to initially unparsable file."\n                                )\n                            elif not _valid:\n',
+        '                            result_invalid = not _valid\n                            # Was anything actually applied? If not, then the fixes we\n                            # had cannot be safely applied and we should stop trying.\n                            if loop_check_tuple == (tree.raw, tuple(tree.source_fixes)):\n                                linter_logger.debug(\n                                    f"Fixes for {crawler.code} could not be safely be "\n                                    "applied. Likely due to initially unparsable file."\n                                )\n                            elif result_invalid:\n',
+        "QUIET", None, "negated validity held in a boolean local",
+    ),
+    Variant(
+        "quiet-locals-renamed", LINTER,
+        "new_tree",
+        "candidate_tree",
+        "QUIET", None, "candidate tree local renamed everywhere", 4,
+    ),
+    Variant(
+        "quiet-apply-fixes-all-keywords", LINTER,
+        "                                tree,\n                                config.get(\"dialect_obj\"),\n                                crawler.code,\n                                anchor_info,\n                                fix_even_unparsable",
+        "                                segment=tree,\n                                dialect=config.get(\"dialect_obj\"),\n                                rule_code=crawler.code,\n                                fixes=anchor_info,\n                                fix_even_unparsable",
+        "QUIET", None, "positional arguments passed by keyword",
+    ),
+    Variant(
+        "quiet-adoption-through-temp", LINTER,
+        "                                tree = new_tree\n                                previous_versions.add(loop_check_tuple)\n",
+        "                                accepted_tree = new_tree\n                                previous_versions.add(loop_check_tuple)\n                                tree = accepted_tree\n",
+        "QUIET", None, "adopted tree through one more local, independent statements reordered",
+    ),
+    Variant(
+        "quiet-request-renamed", FIX,
+        "requires_validate",
+        "needs_reparse_check",
+        "QUIET", None, "request local renamed everywhere", 6,
+    ),
+    Variant(
+        "quiet-exemption-positive-form", FIX,
+        "            if not (\n                f.edit_type == \"replace\"\n                and len(f.edit) == 1\n                and f.edit[0].class_types == seg.class_types\n            ):\n                requires_validate = True\n",
+        "            if (\n                f.edit_type == \"replace\"\n                and len(f.edit) == 1\n                and f.edit[0].class_types == seg.class_types\n            ):\n                pass\n            else:\n                requires_validate = True\n",
+        "QUIET", None, "exemption written positively with the request in the else arm",
+    ),
+    Variant(
+        "quiet-exemption-in-boolean-local", FIX,
+        "            if not (\n                f.edit_type == \"replace\"\n                and len(f.edit) == 1\n                and f.edit[0].class_types == seg.class_types\n            ):\n                requires_validate = True\n",
+        "            same_type_swap = (\n                f.edit_type == \"replace\"\n                and len(f.edit) == 1\n                and f.edit[0].class_types == seg.class_types\n            )\n            if not same_type_swap:\n                requires_validate = True\n",
+        "QUIET", None, "exemption test held in a boolean local",
+    ),
+    Variant(
+        "quiet-exemption-de-morgan-chain", FIX,
+        "            if not (\n                f.edit_type == \"replace\"\n                and len(f.edit) == 1\n                and f.edit[0].class_types == seg.class_types\n            ):\n                requires_validate = True\n",
+        "            if f.edit_type != \"replace\":\n                requires_validate = True\n            elif len(f.edit) != 1:\n                requires_validate = True\n            elif f.edit[0].class_types != seg.class_types:\n                requires_validate = True\n",
+        "QUIET", None, "negated conjunction spelled as an if/elif chain of the negated conjuncts",
+    ),
+    Variant(
+        "quiet-exemption-or-of-negations", FIX,
+        "            if not (\n                f.edit_type == \"replace\"\n                and len(f.edit) == 1\n                and f.edit[0].class_types == seg.class_types\n            ):\n                requires_validate = True\n",
+        "            if (\n                f.edit_type != \"replace\"\n                or len(f.edit) != 1\n                or f.edit[0].class_types != seg.class_types\n            ):\n                requires_validate = True\n",
+        "QUIET", None, "De Morgan on the exemption test",
+    ),
+    Variant(
+        "quiet-edit-list-through-local", FIX,
+        "            if not (\n                f.edit_type == \"replace\"\n                and len(f.edit) == 1\n                and f.edit[0].class_types == seg.class_types\n            ):\n                requires_validate = True\n",
+        "            new_segments = f.edit\n            if not (\n                f.edit_type == \"replace\"\n                and len(new_segments) == 1\n                and new_segments[0].class_types == seg.class_types\n            ):\n                requires_validate = True\n",
+        "QUIET", None, "f.edit read once into a local",
+    ),
+    Variant(
+        "quiet-exemption-sides-swapped", FIX,
+        "                and f.edit[0].class_types == seg.class_types\n",
+        "                and seg.class_types == f.edit[0].class_types\n",
+        "QUIET", None, "operands of the type comparison swapped",
+    ),
+    Variant(
+        "quiet-child-validity-or-accumulated", FIX,
+        "        if not validated:\n            requires_validate = True\n",
+        "        requires_validate = requires_validate or not validated\n",
+        "QUIET", None, "request accumulated with `or` instead of a conditional set",
+    ),
+    Variant(
+        "quiet-recursive-result-indexed", FIX,
+        "        s, pre, post, validated = apply_fixes(\n            seg,\n            dialect,\n            rule_code,\n            fixes,\n            max_parse_depth=max_parse_depth,\n            max_parse_nodes=max_parse_nodes,\n        )\n",
+        "        child_result = apply_fixes(\n            seg,\n            dialect,\n            rule_code,\n            fixes,\n            max_parse_depth=max_parse_depth,\n            max_parse_nodes=max_parse_nodes,\n        )\n        s, pre, post = child_result[0], child_result[1], child_result[2]\n        validated = child_result[3]\n",
+        "QUIET", None, "recursive result kept whole and indexed",
+    ),
+    Variant(
+        "quiet-no-request-arm-returns-directly", FIX,
+        "    else:\n        validated = not requires_validate\n",
+        "    else:\n        return new_seg, before, after, True\n",
+        "QUIET", None, "the no-request arm returns its (true) validity directly",
+    ),
+    Variant(
+        "quiet-unparsable-test-in-local", FIX,
+        "        if \"unparsable\" in segment.descendant_type_set | segment.class_types:\n",
+        "        already_unparsable = \"unparsable\" in segment.descendant_type_set | segment.class_types\n        if already_unparsable:\n",
+        "QUIET", None, "already-unparsable test held in a local",
+    ),
+    Variant(
+        "quiet-unparsable-arms-swapped", FIX,
+        "            if fix_even_unparsable:\n                # If we're fixing even unparsable sections, there's no point trying\n                # to validate, it will always fail. We may still want to validate\n                # other sections of the file though, so we should just declare *this*\n                # part of the file to be all good.\n                validated = True\n            else:\n                # It was already unparsable, but we're being asked to validate.\n                # Don't any apply fixes from within this region and just return the\n                # original segment.\n                return segment, [], [], True\n",
+        "            if not fix_even_unparsable:\n                # It was already unparsable, but we're being asked to validate.\n                # Don't any apply fixes from within this region and just return the\n                # original segment.\n                return segment, [], [], True\n            validated = True\n",
+        "QUIET", None, "early return first, forced arm after it",
+    ),
+    # breaking twins of the spellings accepted above
+    Variant(
+        "whole-result-wrong-component-as-validity", LINTER,
+        '                            new_tree, _, _, _valid = apply_fixes(\n                                tree,\n                                config.get("dialect_obj"),\n                                crawler.code,\n                                anchor_info,\n                                fix_even_unparsable=config.get("fix_even_unparsable"),\n                                max_parse_depth=config.get("max_parse_depth"),\n                                max_parse_nodes=config.get("max_parse_nodes"),\n                            )\n',
+        '                            fix_result = apply_fixes(\n                                tree,\n                                config.get("dialect_obj"),\n                                crawler.code,\n                                anchor_info,\n                                fix_even_unparsable=config.get("fix_even_unparsable"),\n                                max_parse_depth=config.get("max_parse_depth"),\n                                max_parse_nodes=config.get("max_parse_nodes"),\n                            )\n                            new_tree = fix_result[0]\n                            _valid = not fix_result[2]\n',
+        "R13a", "lint_fix_parsed", "the flag tested before adoption is not the validity component",
+    ),
+    Variant(
+        "whole-result-adopted-directly", LINTER,
+        '                            new_tree, _, _, _valid = apply_fixes(\n                                tree,\n                                config.get("dialect_obj"),\n                                crawler.code,\n                                anchor_info,\n                                fix_even_unparsable=config.get("fix_even_unparsable"),\n                                max_parse_depth=config.get("max_parse_depth"),\n                                max_parse_nodes=config.get("max_parse_nodes"),\n                            )\n',
+        '                            fix_result = apply_fixes(\n                                tree,\n                                config.get("dialect_obj"),\n                                crawler.code,\n                                anchor_info,\n                                fix_even_unparsable=config.get("fix_even_unparsable"),\n                                max_parse_depth=config.get("max_parse_depth"),\n                                max_parse_nodes=config.get("max_parse_nodes"),\n                            )\n                            new_tree = tree = fix_result[0]\n                            _valid = fix_result[3]\n',
+        "R13a", "lint_fix_parsed", "the tree component is bound straight to the working tree",
+    ),
+    Variant(
+        "child-validity-or-accumulated-wrong-polarity", FIX,
+        "        if not validated:\n            requires_validate = True\n",
+        "        requires_validate = requires_validate or validated\n",
+        "R13b", "(ii) child not validated",
+    ),
+    Variant(
+        "child-validity-and-accumulated-resets", FIX,
+        "        if not validated:\n            requires_validate = True\n",
+        "        requires_validate = requires_validate and not validated\n",
+        "R13b", "reparse check under the request", "an `and` accumulation can switch the request off: it is no request flag any more",
+    ),
+    Variant(
+        "recursive-result-indexed-wrong-component", FIX,
+        '        s, pre, post, validated = apply_fixes(\n            seg,\n            dialect,\n            rule_code,\n            fixes,\n            max_parse_depth=max_parse_depth,\n            max_parse_nodes=max_parse_nodes,\n        )\n',
+        '        child_result = apply_fixes(\n            seg,\n            dialect,\n            rule_code,\n            fixes,\n            max_parse_depth=max_parse_depth,\n            max_parse_nodes=max_parse_nodes,\n        )\n        s, pre, post = child_result[0], child_result[1], child_result[2]\n        validated = bool(child_result[0])\n',
+        "R13b", "(ii) child not validated",
+    ),
+    Variant(
+        "exemption-local-without-type-test", FIX,
+        '            if not (\n                f.edit_type == "replace"\n                and len(f.edit) == 1\n                and f.edit[0].class_types == seg.class_types\n            ):\n                requires_validate = True\n',
+        "            simple_swap = f.edit_type == \"replace\" and len(f.edit) == 1\n            if not simple_swap:\n                requires_validate = True\n",
+        "R13b", "(i) every edit kind",
+    ),
+    Variant(
+        "exemption-chain-without-type-arm", FIX,
+        '            if not (\n                f.edit_type == "replace"\n                and len(f.edit) == 1\n                and f.edit[0].class_types == seg.class_types\n            ):\n                requires_validate = True\n',
+        "            if f.edit_type != \"replace\":\n                requires_validate = True\n            elif len(f.edit) != 1:\n                requires_validate = True\n",
+        "R13b", "(i) every edit kind",
+    ),
+    Variant(
+        "exemption-compares-type-of-other-local", FIX,
+        '            if not (\n                f.edit_type == "replace"\n                and len(f.edit) == 1\n                and f.edit[0].class_types == seg.class_types\n            ):\n                requires_validate = True\n',
+        "            new_segments = f.edit\n            if not (\n                f.edit_type == \"replace\"\n                and len(new_segments) == 1\n                and seg.class_types == seg.class_types\n            ):\n                requires_validate = True\n",
+        "R13b", "(i) every edit kind",
     ),
     Variant(
         "no-grammar-segment-keeps-child-validity", FIX,
